@@ -728,9 +728,29 @@ def code_branches(ctx: Ctx, f: FunctionInfo, hn: Node):
         mreach = reachable_from(g, mt, NORMAL) if mt is not None else set()
         oreach = reachable_from(g, ot, NORMAL) if ot is not None else set()
         m_only, o_only = mreach - oreach, oreach - mreach
-        yield (b, codes,
+        yield (b, _pair_codes(ctx, f, b, codes),
                {g.nodes[x].raised for x in m_only if g.nodes[x].kind == "raise"},
                {g.nodes[x].raised for x in o_only if g.nodes[x].kind == "raise"}, m_only, o_only)
+
+
+def _pair_codes(ctx: Ctx, f: FunctionInfo, b: Node, codes):  # type: ignore[no-untyped-def]
+    """`(MEANING, code) in TABLE` with TABLE a constant set of (meaning, code) pairs: the codes listed for that meaning."""
+    ec = effective_compare(ctx, f, b)
+    if ec is None:
+        return codes
+    cmp_, at = ec
+    if not (isinstance(cmp_.ops[0], (ast.In, ast.NotIn)) and isinstance(cmp_.left, ast.Tuple) and len(cmp_.left.elts) == 2):
+        return codes
+    table = concrete_eval(ctx, f, cmp_.comparators[0], {}, at)
+    if not isinstance(table, (tuple, frozenset)) or isinstance(table, PartialTuple) or not table \
+            or not all(isinstance(r_, tuple) and len(r_) == 2 and all(isinstance(x, str) for x in r_) for r_ in table):
+        return codes
+    k0, k1 = (concrete_eval(ctx, f, x, {}, at) for x in cmp_.left.elts)
+    if isinstance(k0, str) and not isinstance(k1, str):
+        return sorted({c for m, c in table if m == k0})
+    if isinstance(k1, str) and not isinstance(k0, str):
+        return sorted({m for m, c in table if c == k1})
+    return codes
 
 
 def regex_flags(e: Optional[ast.AST]) -> Optional[int]:
@@ -1353,6 +1373,54 @@ def concrete_eval(ctx: Ctx, f: FunctionInfo, e: Optional[ast.AST], env: Dict[str
         if all(isinstance(x, (frozenset, tuple)) and not isinstance(x, PartialTuple) for x in (a, b)) and any(isinstance(x, frozenset) for x in (a, b)):
             return frozenset(a) | frozenset(b)  # type: ignore[arg-type]  # a set display evaluates to a tuple of its members here
         return UNKNOWN
+    if isinstance(e, (ast.GeneratorExp, ast.ListComp, ast.SetComp)) and depth < 10:
+        # a comprehension over evaluable sequences (rows of a literal table): unrolled, every element must evaluate
+        acc: List[object] = []
+
+        class _Stop(Exception):
+            pass
+
+        def _go(i: int, env2: Dict[str, object]) -> None:
+            if len(acc) > 512:
+                raise _Stop()
+            if i == len(e.generators):  # type: ignore[union-attr]
+                v_ = concrete_eval(ctx, f, e.elt, env2, at, depth + 1)  # type: ignore[union-attr]
+                if v_ is UNKNOWN:
+                    raise _Stop()
+                acc.append(v_)
+                return
+            gen = e.generators[i]  # type: ignore[union-attr]
+            it = concrete_eval(ctx, f, gen.iter, env2, at, depth + 1)
+            if not isinstance(it, (tuple, list, frozenset)) or isinstance(it, PartialTuple) or gen.is_async:
+                raise _Stop()
+            for el in it:
+                env3 = dict(env2)
+                if isinstance(gen.target, ast.Name):
+                    env3[gen.target.id] = el
+                elif isinstance(gen.target, (ast.Tuple, ast.List)) and all(isinstance(t, ast.Name) for t in gen.target.elts) \
+                        and isinstance(el, (tuple, list)) and len(el) == len(gen.target.elts):
+                    for t, x_ in zip(gen.target.elts, el):
+                        env3[t.id] = x_  # type: ignore[attr-defined]
+                else:
+                    raise _Stop()
+                keep = True
+                for c_ in gen.ifs:
+                    cv = concrete_eval(ctx, f, c_, env3, at, depth + 1)
+                    if cv is UNKNOWN:
+                        raise _Stop()
+                    keep = keep and bool(cv)
+                if keep:
+                    _go(i + 1, env3)
+        try:
+            _go(0, dict(env))
+        except _Stop:
+            return UNKNOWN
+        except Exception:
+            return UNKNOWN
+        try:
+            return frozenset(acc) if isinstance(e, ast.SetComp) else tuple(acc)
+        except TypeError:
+            return UNKNOWN
     if isinstance(e, ast.Call) and ("ret", id(e)) in env:
         return env[("ret", id(e))]  # type: ignore[index]  # the carried result of a helper analysed in place
     if isinstance(e, ast.Call):
@@ -2280,3 +2348,28 @@ def module_const_value(ctx: Ctx, mod, e: Optional[ast.AST], depth: int = 0) -> O
         import re as _re
         return _re.escape(v) if isinstance(v, str) else None
     return module_const_number(ctx, mod, e)
+
+
+def temp_fd_writes(ctx: Ctx, f: FunctionInfo):  # type: ignore[no-untyped-def]
+    """Writes of content into a descriptor-backed temp file of f, in both spellings: `os.write(fd, data)` and
+    `with os.fdopen(fd, "wb") as fh: fh.write(data)`.  Returns [(write node, descriptor expression, flush nodes)]: for the
+    buffered spelling the data reaches the kernel only at `fh.flush()` / close, so the flushes of the same file object are
+    reported with it (an fsync of `fh.fileno()` that no flush dominates syncs an empty file)."""
+    g = ctx.cfg(f)
+    sl = ctx.slicer(f)
+    out = []
+    for n in g.calls():
+        if n.callee is not None and n.callee.kind == "prim" and n.callee.name == "os.write" and isinstance(n.ast, ast.Call) and n.ast.args:
+            out.append((n, n.ast.args[0], None))
+    for n in g.calls():
+        a = n.ast
+        if not (isinstance(a, ast.Call) and isinstance(a.func, ast.Attribute) and a.func.attr in ("write", "writelines") and isinstance(a.func.value, ast.Name)):
+            continue
+        recv = a.func.value
+        opens = [c for c in sl.origins(recv, n.id)["calls"] if isinstance(c, ast.Call) and (dotted(c.func) or "") == "os.fdopen" and c.args]
+        if not opens:
+            continue
+        flushes = [m for m in g.calls() if isinstance(m.ast, ast.Call) and isinstance(m.ast.func, ast.Attribute) and m.ast.func.attr == "flush"
+                   and isinstance(m.ast.func.value, ast.Name) and m.ast.func.value.id == recv.id]
+        out.append((n, opens[0].args[0], flushes))
+    return out
